@@ -11,7 +11,7 @@ TARGETS = [('bounded', t) for t in (
     'edits.AbstractEdit.bounds', 'edits.ConstantCostEdit.tighten_bounds',
     'graphtage.KeyValuePairEdit.bounds', 'graphtage.KeyValuePairEdit.tighten_bounds',
     'sequences.FixedLengthSequenceEdit.tighten_bounds', 'bounds.repeat_until_tightened.wrapper',
-    'tree.Edit.has_non_zero_cost')]
+    'tree.Edit.has_non_zero_cost')] + [('xmledit', 'xml.XMLElementEdit.bounds'), ('xmledit', 'xml.XMLElementEdit.tighten_bounds')]
 TRUSTED = [
     'protocol B (never widens, sound, progress strict, False only when definitive, fuel decreases) is ASSUMED for '
     'sub-objects of unknown class and proved for the listed implementers',
